@@ -19,7 +19,7 @@ RULE = ('cases: histories (4..40 steps) over 1..6 streams of send_data (sizes 0,
         'INITIAL_WINDOW_SIZE change after data was sent, >= 1 padded frame and >= 2 streams; distinct by trace')
 ASSUMPTIONS = ['a send on a negative window is a dont-care (RFC allows empty DATA there, the library refuses it)']
 TIERS = {'quick': {'cases': 4000, 'size': 400},
-         'thorough': {'cases': 150000, 'size': 600}}
+         'thorough': {'cases': 900000, 'size': 600}}
 TOP = 2**31 - 1
 
 
